@@ -4,34 +4,10 @@ from __future__ import annotations
 from pyvc.engine import Contract, LoopSpec
 from pyvc.types import TBool, TDict, TInt, TOpt, TSeq, TSet, TStr, TTuple
 
-from .mapspec import F, ShapeDict, all_pos
+from .mapspec import (F, ShapeDict, _has_axis, _indices_clauses, _named, _oi, _some_input_has, all_pos)
 from .ty import SB, SI, SS, ArraySpecT, MapSpecT, SArraySpec
 
 
-def _has_axis(S, x, index):
-    return S.exists(0, S.len(x.axes), lambda q: S.and_(S.not_(S.is_none(x.axes[q])), lambda: S.eq(S.some(x.axes[q]), index)))
-
-
-def _named(S, x, upto):
-    """Boolean array: axis position q of x is named (not ':')."""
-    return S.defarray("spec:named-axis", [x.axes] if S.symbolic else [], lambda q: S.and_(
-        0 <= q, q < S.len(x.axes), lambda: S.not_(S.is_none(x.axes[q]))), S.len(x.axes))
-
-
-arrayspec_indices = Contract(
-    f"{F}::ArraySpec.indices", params={"self": ArraySpecT}, returns=SS,
-    axioms=lambda S, a: [_named(S, a.self, None)[1]],
-    ensures=lambda S, a, r, post: (lambda C: {
-        "the named axes, in order": S.and_(S.len(r) == S.cnt(C, S.len(a.self.axes)), lambda: S.forall(
-            0, S.len(a.self.axes), lambda q: S.implies(C[q], lambda: S.eq(r[S.cnt(C, q)], S.some(a.self.axes[q]))))),
-        "nothing else": S.forall(0, S.len(r), lambda t: S.exists(0, S.len(a.self.axes), lambda q: S.and_(
-            S.not_(S.is_none(a.self.axes[q])), lambda: S.eq(r[t], S.some(a.self.axes[q]))))),
-        "membership: exactly the names of the named axes": S.forall_key(
-            TStr, lambda nm: S.contains(r, nm) == _has_axis(S, a.self, nm),
-            domain=() if S.symbolic else list(r) + [x for x in a.self.axes if x is not None] + ["zz"]),
-    })(_named(S, a.self, None)[0]),
-)
-ALL = [arrayspec_indices]
 
 
 # ---- _get_common_dim (assumed; nested def + starred unpacking of a generator are outside the engine's subset) ------------
@@ -73,7 +49,7 @@ get_common_dim = Contract(
         0, S.len(a.arrays), lambda i: _dim_along(S, a.arrays[i], a.index, a.input_shapes, r))},
     note="nested function + starred unpacking of a generator: outside the engine's subset; bounded-checked",
 )
-ALL += [get_common_dim]
+ALL = [get_common_dim]
 
 
 # ---- MapSpec.shape ------------------------------------------------------------------------------------------------------
